@@ -140,6 +140,8 @@ def apply_damage(L, c, spec, initial_parity):
                 fh.write(data)
     elif k == "parity-garbage":
         F.corrupt_parity(L, spec[1])
+    elif k == "scrub":
+        L.run("scrub", "-p", "full")      # the damage applied so far gets recorded (bad marks)
     elif k == "multi":
         for sub in spec[1]:
             apply_damage(L, c, tuple(sub), initial_parity)
@@ -373,6 +375,8 @@ def damage_job(job):
     L.write("d1", "unknown.txt", b"not in the array", labmod.T0 * 10**9 + 77, record=False)
     exempt = exempt_files(c, L.snap())
     apply_damage(L, c, spec, initial_parity)
+    if spec[0] == "multi" and any(tuple(x)[0] == "scrub" for x in spec[1]):
+        c = L.content()                   # the record now carries the bad marks of that scrub
     before = L.snap()
     res = run_fix(L, flt)
     viols = fix_oracle(L, c, res, before, flt, repr((spec, flt)), exempt)
@@ -522,6 +526,41 @@ def run(ctx):
                 ctx.violation(key, "%s in %s (new file without hashes), damage %r" % (v["kind"], cfg.short(), spec),
                               dict(cfg=cfg.describe(), history=hist, damage=spec, filter=(), violation=v))
         ctx.set("nohash_cases[%s]" % cfg.short(), len(jobs))
+    # ---- silent errors RECORDED by a scrub (bad marks), in a file whose blocks are fragmented around another file of the same disk:
+    # every non-empty subset of the blocks {fragment 1, the file in between, fragment 2, an unrelated file} flipped, scrub, then
+    # fix -e (alone and combined with -f) and the unfiltered fix
+    for cfg in configs(tier):
+        if ctx.out_of_time():
+            ctx.cap("deadline before the bad-marked part " + cfg.short())
+            break
+        hist = init_ops(cfg) + [("write", "d1", "f1", 1024, 0), ("write", "d1", "f2", 1024, 0), ("write", "d1", "f3", 1024, 0), ("cmd", "sync"),
+                                ("rm", "d1", "f1"), ("rm", "d1", "f3"), ("write", "d1", "frag", 2048, 0), ("cmd", "sync")]
+        with labmod.Lab(cfg, seed=ctx.seed) as L0:
+            for op in hist:
+                r0 = X.apply_op(L0, op)
+                if r0 is not None and r0.rc != 0:
+                    raise RuntimeError("bad-marked base failed\n" + r0.text())
+            c0 = L0.content()
+            saved = L0.save()
+        fr = next(f for f in c0.disks[b"d1"].files if f.sub == b"frag")
+        if fr.blocks[1][1] == fr.blocks[0][1] + 1:
+            raise RuntimeError("bad-marked base: the file is not fragmented %r" % (fr.blocks,))
+        targets = [("flip", "d1", "frag", 0), ("flip", "d1", "f2", 0), ("flip", "d1", "frag", 1), ("flip", "d1", "A", 0)]
+        jobs = []
+        for n in range(1, len(targets) + 1):
+            for S in itertools.combinations(targets, n):
+                for flt in [("-e",), ("-e", "-f", "f2"), ("-e", "-f", "frag"), ()]:     # (-e with -d is refused by the tool)
+                    jobs.append((cfg, saved, ("multi", S + (("scrub",),)), flt, ctx.seed, {}))
+        for job, r in par.pmap(damage_job, jobs, deadline=ctx.deadline):
+            evals += 1
+            spec, flt = job[2], job[3]
+            ctx.outcome(("bad-marked", " ".join(flt), r["rc"]))
+            if r["recovered"] or r["unrec"]:
+                ctx.nontrivial((cfg.short(), "bad-marked", repr(spec), flt))
+            for v, key in zip(r["viols"], r["sig"] or []):
+                ctx.violation(key, "%s in %s (errors recorded by scrub), damage %r, filter %r" % (v["kind"], cfg.short(), spec, flt),
+                              dict(cfg=cfg.describe(), history=hist, damage=spec, filter=flt, violation=v))
+        ctx.set("bad_marked_cases[%s]" % cfg.short(), len(jobs))
     ctx.set("states", tot_states)
     ctx.set("transitions", tot_trans + evals)
     ctx.set("evaluations", evals)
@@ -562,6 +601,7 @@ def collect_all(ctx, ex, on_violation):
     for depth in range(1, ex.depth + 1):
         jobs = [(saved, hist, op) for saved, hist, info in frontier for op in ex.alphabet_fn(hist, info)]
         nxt = []
+        level = {}
         done = 0
         for job, r in par.pmap(X._job_global, X.make_jobs(ex, jobs), deadline=ctx.deadline):
             job = job[3:]
@@ -572,10 +612,16 @@ def collect_all(ctx, ex, on_violation):
                 on_violation(v, hist)
             if r["canon"] in seen:
                 continue
-            seen.add(r["canon"])
-            ex.states += 1
-            nxt.append((X.intern_saved(r["saved"]), hist, r["info"]))
-            out.append((r["saved"], hist))
+            # results arrive in completion order: the representative of a class is the history smallest in a fixed order, not
+            # the one that happened to finish first (the filter rotation below depends on the order of the targets)
+            cur = level.get(r["canon"])
+            if cur is None or repr(hist) < repr(cur[1]):
+                level[r["canon"]] = (X.intern_saved(r["saved"]), hist, r["info"])
+        seen.update(level)
+        ex.states += len(level)
+        for saved_, hist_, info_ in level.values():
+            nxt.append((saved_, hist_, info_))
+            out.append((saved_, hist_))
         if done < len(jobs):
             ctx.cap("%s: deadline in phase 1 at depth %d" % (ex.label, depth))
             break
@@ -610,6 +656,8 @@ def replay(r):
             if spec[0] == "lost":
                 spec = ("lost", [tuple(x) for x in spec[1]])
             apply_damage(L, c, tuple(spec), initial_parity)
+            if spec[0] == "multi" and any(tuple(x)[0] == "scrub" for x in spec[1]):
+                c = L.content()
             before = L.snap()
             res = run_fix(L, r["filter"])
             print(res.text()[-800:])
